@@ -73,6 +73,13 @@ TokText(t) == IF t[1] = "key" THEN KeyCat[t[2]] ELSE IF t[1] = "scalar" THEN Sca
 \* scalars, an object of n members, a matrix of about n scalars - for the sizes at which an implementation may switch
 \* its bookkeeping or meet a limit (the harness builds them from the catalogue, cycling through the scalars)
 ScaledSizes == {15, 16, 17, 63, 64, 65, 255, 256, 257, 999, 1000, 1001, 1023, 1024, 1025, 4096, 20000}
-EmitSizes == (out = <<>> /\ ~fin) => PrintT(ToJson([sizes |-> ScaledSizes]))
+\* ---- whitespace: RFC 8259 allows any run of space, tab, line feed and carriage return around the six structural
+\* characters and around the text.  Every document is rendered with each of these runs at every such place (the same
+\* run everywhere): none, each blank alone, the line-end conventions, and runs of two and more blanks of one and of
+\* several kinds (a run is where an implementation may take a short cut that a single blank does not take).
+BlankRuns == << <<>>, <<"sp">>, <<"tab">>, <<"lf">>, <<"cr","lf">>, <<"cr">>, <<"sp","lf","tab">>,
+               <<"sp","sp">>, <<"tab","tab","tab">>, <<"sp","tab","sp">>, <<"sp","sp","sp","sp","sp","sp","sp","sp">>,
+               <<"lf","lf">>, <<"cr","lf","sp","sp">> >>
+EmitSizes == (out = <<>> /\ ~fin) => PrintT(ToJson([sizes |-> ScaledSizes, blanks |-> BlankRuns]))
 Emit == fin => PrintT(ToJson([toks |-> [i \in 1..Len(out) |-> [k |-> out[i][1], t |-> TokText(out[i])]]]))
 ===============================================================================
